@@ -215,6 +215,8 @@ func setStr(rs []rune) string {
 			ss = append(ss, "OTHER")
 		case uEnd:
 			ss = append(ss, "END")
+		case ',':
+			ss = append(ss, "COMMA")
 		default:
 			ss = append(ss, string(r))
 		}
@@ -233,6 +235,8 @@ func parseSet(s string) []rune {
 			out = append(out, uOther)
 		case "END":
 			out = append(out, uEnd)
+		case "COMMA":
+			out = append(out, ',')
 		default:
 			out = append(out, []rune(p)[0])
 		}
@@ -265,6 +269,31 @@ type outcome struct {
 	Pos, Tok  string
 	Hist      []string
 	Flags     []string
+	Know      map[string]string // position term -> the runes the input can have there on this path
+}
+
+func knowKey(k map[string]string) string {
+	if len(k) == 0 {
+		return ""
+	}
+	ps := make([]string, 0, len(k))
+	for p := range k {
+		ps = append(ps, p)
+	}
+	sort.Strings(ps)
+	var sb strings.Builder
+	for _, p := range ps {
+		sb.WriteString(p + "∈{" + k[p] + "};")
+	}
+	return sb.String()
+}
+
+func copyKnow(k map[string]string) map[string]string {
+	c := make(map[string]string, len(k))
+	for p, v := range k {
+		c[p] = v
+	}
+	return c
 }
 
 func (o outcome) String() string {
@@ -444,7 +473,7 @@ func (f *flow) analyse(fl *ast.FuncLit) {
 				// later back edges must be the invariant advanced by one more iteration
 				iv := invs[marker+"/"+tag]
 				if !(strings.HasSuffix(strings.TrimRight(s.pos, ")"), "("+strings.TrimRight(iv.pos, ")")) && tokDerived(s.tok, iv.tok)) {
-					o := outcome{Kind: "loop-back-edge", Pos: s.pos, Tok: s.tok, Hist: s.hist, Flags: append(s.flags, "the state at the repetition's back edge is not 'invariant advanced by one successful iteration of the body' (position "+s.pos+", tokens "+s.tok+" vs invariant "+iv.pos+", "+iv.tok+")")}
+					o := outcome{Kind: "loop-back-edge", Pos: s.pos, Tok: s.tok, Hist: s.hist, Know: copyKnow(s.know), Flags: append(s.flags, "the state at the repetition's back edge is not 'invariant advanced by one successful iteration of the body' (position "+s.pos+", tokens "+s.tok+" vs invariant "+iv.pos+", "+iv.tok+")")}
 					f.outs[o.String()] = o
 				}
 				continue
@@ -496,7 +525,7 @@ func (f *flow) analyse(fl *ast.FuncLit) {
 			}
 			if len(b.Succs) == 0 && !isReturnBlock(b) {
 				// fell off the end of the function body
-				o := outcome{Kind: "falls-off-end", Pos: st.pos, Tok: st.tok, Hist: st.hist, Flags: st.flags}
+				o := outcome{Kind: "falls-off-end", Pos: st.pos, Tok: st.tok, Hist: st.hist, Flags: st.flags, Know: copyKnow(st.know)}
 				f.outs[o.String()] = o
 			}
 		}
@@ -562,6 +591,40 @@ func (f *flow) stmt(n ast.Node, s *astate) []*astate {
 					c := s.clone()
 					c.hist = append(c.hist, fmt.Sprintf("memo?(%d,%s)", idv, pt))
 					return []*astate{c}
+				}
+			}
+		}
+		// the same lookup through a method or helper of the memo table: memoized, ok := memoization.get(id, position)
+		if len(x.Rhs) == 1 && len(x.Lhs) == 2 {
+			if ce, ok := x.Rhs[0].(*ast.CallExpr); ok {
+				onTable := false
+				if se, ok := ce.Fun.(*ast.SelectorExpr); ok && f.isObj(se.X, "memoization") {
+					onTable = true
+				}
+				for _, a := range ce.Args {
+					if f.isObj(a, "memoization") {
+						onTable = true
+					}
+				}
+				if onTable {
+					idv, pt, haveID, havePos := rune(0), "", false, false
+					for _, a := range ce.Args {
+						if f.isObj(a, "memoization") {
+							continue
+						}
+						if t, ok := f.valueTerm(a, s); ok && !havePos {
+							pt, havePos = t, true
+							continue
+						}
+						if v, ok := runeLit(f.info, a); ok && !haveID {
+							idv, haveID = v, true
+						}
+					}
+					if haveID && havePos {
+						c := s.clone()
+						c.hist = append(c.hist, fmt.Sprintf("memo?(%d,%s)", idv, pt))
+						return []*astate{c}
+					}
 				}
 			}
 		}
@@ -707,8 +770,8 @@ func (f *flow) stmt(n ast.Node, s *astate) []*astate {
 				}
 			}
 		}
-		o := outcome{Kind: kind, Pos: s.pos, Tok: s.tok, Hist: s.hist, Flags: s.flags}
-		f.outs[o.String()] = o
+		o := outcome{Kind: kind, Pos: s.pos, Tok: s.tok, Hist: s.hist, Flags: s.flags, Know: copyKnow(s.know)}
+		f.outs[o.String()+" given "+knowKey(o.Know)] = o
 		return nil
 	case *ast.LabeledStmt, *ast.BranchStmt, *ast.EmptyStmt:
 		return []*astate{s}
